@@ -87,13 +87,13 @@ func init() {
 		err = al.Translate(atoi(a[1]), atoi(a[2]))
 		return okErr(err, itoa(al.Length())+" "+itoa(al.Alphabet())+" "+encRows(rowsOf(al)))
 	})
-	// codonalign <protrows> <ntrows>
+	// codonalign <code> <protrows> <ntrows>   (<code> is only used by the oracle's predicate)
 	register("codonalign", func(a []string) string {
-		al, err := mkAlign(align.AMINOACIDS, decRows(a[0]))
+		al, err := mkAlign(align.AMINOACIDS, decRows(a[1]))
 		if err != nil {
 			return "err-build"
 		}
-		nt := mkBag(align.NUCLEOTIDS, decRows(a[1]))
+		nt := mkBag(align.NUCLEOTIDS, decRows(a[2]))
 		res, err := al.CodonAlign(nt)
 		if err != nil {
 			return "err"
